@@ -46,11 +46,22 @@ theorem C10_done_spec (P : List (List α)) (hay : List α) (s e : Nat) (h : s = 
   have := EngP.occ_inside P hay s e m hm
   omega
 
-/-- … and the search answers none for every automaton -/
-theorem C10_done (A : Aut σ α) (pre : Option (Prefilter α)) (i : Input α) (h : i.s = i.e + 1) :
+/-- … and the search answers none for every automaton that supports the requested anchoring mode -/
+theorem C10_done (A : Aut σ α) (pre : Option (Prefilter α)) (i : Input α) (h : i.s = i.e + 1)
+    (hst : (A.start i.anch).isSome) :
     tryFindFwd A pre i = .ok none := by
   have hd : i.isDone = true := by simp [Input.isDone, h]
-  simp [tryFindFwd, hd]
+  obtain ⟨sid, hs⟩ := Option.isSome_iff_exists.mp hst
+  simp [tryFindFwd, hd, hs]
+
+/-- … while an automaton that does not support the requested anchoring mode rejects the
+input, exactly as it does for a non-empty span (rejection does not depend on the span) -/
+theorem C10_done_rejected (A : Aut σ α) (pre : Option (Prefilter α)) (i : Input α)
+    (h : i.s = i.e + 1) (hst : A.start i.anch = none) :
+    tryFindFwd A pre i =
+      .error (if i.anch then .invalidInputAnchored else .invalidInputUnanchored) := by
+  have hd : i.isDone = true := by simp [Input.isDone, h]
+  simp [tryFindFwd, hd, hst]
 
 /-- lifted to the three `IsFind` answers -/
 theorem C10_find_slice (k : MatchKind) (P : List (List α)) (hay : List α) (s e : Nat)
